@@ -17,7 +17,21 @@ out = []
 out.append("| change | check | suite with change | caught (exit) | signatures reported |")
 out.append("|---|---|---|---|---|")
 caught = missed = invalid = 0
+ctl = []
+ctl_silent = ctl_alarm = ctl_other = 0
 for (name, check), (tier, seed, suite, rc, sigs) in sorted(rows.items(), key=lambda kv: (not kv[0][0].startswith("seeded:"), kv[0])):
+    if name.startswith("control:"):
+        if rc == "0":
+            ctl_silent += 1
+            v = "silent (exit 0)"
+        elif rc == "1":
+            ctl_alarm += 1
+            v = "**false alarm (exit 1)**"
+        else:
+            ctl_other += 1
+            v = f"inconclusive (exit {rc})"
+        ctl.append(f"| `{name}` | {check} | {suite} | {v} | {sigs[:160]} |")
+        continue
     if rc == "-":
         invalid += 1
         verdict = "n/a (not a valid mutant: the repository's own suite notices it)"
@@ -31,7 +45,11 @@ for (name, check), (tier, seed, suite, rc, sigs) in sorted(rows.items(), key=lam
         verdict = f"inconclusive (exit {rc})"
     out.append(f"| `{name}` | {check} | {suite} | {verdict} | {sigs[:160]} |")
 summary = f"Last sweep: {caught} (change, check) pairs caught, {missed} missed, {invalid} rows dropped as invalid mutants."
-text = summary + "\n\n" + "\n".join(out) + "\n\nWhat each seeded change needs in order to manifest:\n\n" + "\n".join(f"* `{k}` - {v}" for k, v in sorted(needs.items()))
+ctl_text = ""
+if ctl:
+    ctl_text = (f"\n\nNegative controls (behaviour-preserving changes, every check must stay silent): {ctl_silent} (change, check) pairs silent, "
+                f"{ctl_alarm} false alarms, {ctl_other} inconclusive.\n\n| change | check | suite with change | verdict | notes |\n|---|---|---|---|---|\n" + "\n".join(ctl))
+text = summary + "\n\n" + "\n".join(out) + ctl_text + "\n\nWhat each seeded change needs in order to manifest:\n\n" + "\n".join(f"* `{k}` - {v}" for k, v in sorted(needs.items()))
 p = f"{ROOT}/DESIGN.md"
 s = open(p).read()
 if "RESULTS_TABLE_PLACEHOLDER" in s:
